@@ -16,6 +16,7 @@
 from __future__ import annotations
 
 import asyncio
+import os
 import pathlib
 from asyncio.log import logger
 from collections.abc import AsyncIterable
@@ -194,9 +195,15 @@ class Controller(AbstractController):
         if not path.parent.exists():
             path.parent.mkdir(parents=True, exist_ok=True)
 
+        # Write a temporary file next to the target and atomically move it into place, so
+        # that an interrupted save can never destroy the previously saved pairing data.
+        tmp_filename = f"{filename}.tmp"
         try:
-            with open(filename, mode="w", encoding="utf-8") as output_fp:
+            with open(tmp_filename, mode="w", encoding="utf-8") as output_fp:
                 output_fp.write(hkjson.dumps_indented(data))
+                output_fp.flush()
+                os.fsync(output_fp.fileno())
+            os.replace(tmp_filename, filename)
         except PermissionError:
             raise ConfigSavingError(f'Could not write "{filename}" due to missing permissions')
         except FileNotFoundError:
